@@ -23,6 +23,7 @@ import (
 var (
 	verifDir = envOr("VERIF_DIR", "/verif")
 	repoDir  = envOr("VERIF_REPO", "/repo")
+	outDir   = envOr("VERIF_OUT", envOr("VERIF_DIR", "/verif"))
 	goRoot   = "/opt/veriftools/go1.26.8"
 )
 
@@ -375,7 +376,7 @@ func cmdCheck(args []string) int {
 	nviol := 0
 	var replayNotes []string
 	if len(allViol) > 0 {
-		os.MkdirAll(filepath.Join(verifDir, "replays", id), 0o755)
+		os.MkdirAll(filepath.Join(outDir, "replays", id), 0o755)
 		rp := newReplayer(ov)
 		defer rp.close()
 		for n, v := range allViol {
@@ -385,7 +386,7 @@ func cmdCheck(args []string) int {
 					hconf = h
 				}
 			}
-			path := filepath.Join(verifDir, "replays", id, fmt.Sprintf("%s-%d.json", v.Harness, n))
+			path := filepath.Join(outDir, "replays", id, fmt.Sprintf("%s-%d.json", v.Harness, n))
 			writeReplay(path, id, hconf, v)
 			if *noReplay {
 				fmt.Printf("COUNTEREXAMPLE (not replayed) property=%s harness=%s label=%q replay=%s %s\n", id, v.Harness, v.Label, path, v.Msg)
@@ -582,7 +583,7 @@ func cmdList() int {
 // evidence
 
 func writeEvidence(id, tier string, seed int, results []*harnessResult, pc *PropConf, wall float64, nviol int, incon []string, replayNotes []string) {
-	os.MkdirAll(filepath.Join(verifDir, "evidence"), 0o755)
+	os.MkdirAll(filepath.Join(outDir, "evidence"), 0o755)
 	paths, asserts, distinct := 0, 0, 0
 	var stats interp.SolverStats
 	funcs := map[string]int{}
@@ -694,7 +695,7 @@ func writeEvidence(id, tier string, seed int, results []*harnessResult, pc *Prop
 		"assumptions": assumptions, "wall_s": wall, "violations": nviol,
 	}
 	b, _ := json.MarshalIndent(ev, "", " ")
-	os.WriteFile(filepath.Join(verifDir, "evidence", id+".json"), b, 0o644)
+	os.WriteFile(filepath.Join(outDir, "evidence", id+".json"), b, 0o644)
 }
 
 func solverVersion() string {
